@@ -9,6 +9,7 @@ EXPLANATION = (
     "whose path is deeper than the parent (depth comparison, not text); (R4) at_sim_end runs in one flat in-order loop over the same "
     "vector, once per module; (R5) duplicate-path and missing-parent panics dominate context creation in SimBuilder::raw. "
     '(R4 also: teardown does not depend on whether a module is active; R6) ObjectPath bookkeeping works on byte offsets — a character count is never used as an offset. '
+    "(R1 also: every traversal used for start-up and tear-down visits the whole module vector - no early exit, no skipped index.) "
     "Decides these necessary conditions only; not ObjectPath string bookkeeping.")
 ASSUMPTIONS = ["Vec::iter/into_iter traverse in index order; Vec::insert keeps relative order"]
 
